@@ -192,12 +192,26 @@ def run_block(stmts, env, out):
         elif isinstance(s, ast.Assign) and isinstance(s.targets[0], ast.Subscript):
             key = ast.unparse(s.targets[0])
             try:
-                env[key] = mini_eval(s.value, env)
-                # keep the list view consistent: bounds[collabel][k]
+                val = mini_eval(s.value, env)
+                env[key] = val
+                # keep the list view consistent: bounds[collabel][k] or an alias `bnd[k]` of that list
                 import re
                 m = re.fullmatch(r"bounds\[collabel\]\[(\d)\]", key)
                 if m:
-                    env["bounds[collabel]"][int(m.group(1))] = env[key]
+                    env["bounds[collabel]"][int(m.group(1))] = val
+                    env.pop(key, None)
+                else:
+                    t0 = s.targets[0]
+                    if isinstance(t0.value, ast.Name) and isinstance(env.get(t0.value.id), list) and isinstance(t0.slice, ast.Constant) \
+                            and isinstance(t0.slice.value, int):
+                        env[t0.value.id][t0.slice.value] = val
+                        env.pop(key, None)
+            except Unknown:
+                pass
+        elif isinstance(s, ast.Assign) and len(s.targets) == 1 and isinstance(s.targets[0], ast.Name):
+            # local aliases of the inputs (`btype = s[1:3].strip()`, `bnd = bounds[collabel]`): lists are shared, not copied
+            try:
+                env[s.targets[0].id] = mini_eval(s.value, env)
             except Unknown:
                 pass
 
@@ -390,10 +404,17 @@ def build(tier, repo):
     # BOUNDS: per type, starting from [0.0, None] with value 3.5
     bchain = None
     for n in ast.walk(fromfile):
-        if isinstance(n, ast.If) and pf.norm_expr(n.test) == "('LO' == s[1:3].strip())":
+        if isinstance(n, ast.If) and isinstance(n.test, ast.Compare) and len(n.test.ops) == 1 and isinstance(n.test.ops[0], ast.Eq) \
+                and any(isinstance(x, ast.Constant) and x.value == "LO" for x in (n.test.left, n.test.comparators[0])):
             bchain = n
     if bchain is None:
         raise AnalysisError("fromfile: BOUNDS type chain not found")
+    # statements of the same block that precede the chain may introduce aliases of the inputs
+    bpar = bchain._parent
+    bblk = next((getattr(bpar, f_) for f_ in ("body", "orelse") if isinstance(getattr(bpar, f_, None), list)
+                 and any(x is bchain for x in getattr(bpar, f_))), [bchain])
+    bpre = [x for x in bblk[:[i for i, x in enumerate(bblk) if x is bchain][0]]
+            if isinstance(x, ast.Assign) and len(x.targets) == 1 and isinstance(x.targets[0], ast.Name)]
     bfinal = [n for n in ast.walk(fromfile) if isinstance(n, ast.For) and "bounds" in pf.norm_expr(n.iter)]
     bfinal = [n for n in bfinal if isinstance(n.target, ast.Tuple)]
     if not bfinal:
@@ -407,7 +428,7 @@ def build(tier, repo):
         env = {"s[1:3].strip()": bt, "s[24:36]": bval, "bounds[collabel]": [0.0, None], "bounds[collabel][0]": 0.0,
                "bounds[collabel][1]": None, "collabel": "COL"}
         out = []
-        run_block([bchain], env, out)
+        run_block(bpre + [bchain], env, out)
         b = env["bounds[collabel]"]
         env2 = {bname: b, "%s[0]" % bname: b[0], "%s[1]" % bname: b[1], "v": "v"}
         out2 = []
